@@ -28,6 +28,97 @@ fn guarded(f: impl FnOnce() -> bool) -> char {
     }
 }
 
+/// Built-in predicates kept alive across all the states of one run (as a user's StrategyConfig keeps them), to be compared
+/// with freshly built ones on every state: a predicate's verdict depends on the state it is given, not on what it was
+/// given before.
+type Verdict = Box<dyn FnMut(&McState) -> bool>;
+type Maker = Box<dyn Fn() -> Verdict>;
+
+thread_local! {
+    static PERSIST: RefCell<Vec<(Maker, Verdict)>> = RefCell::new(vec![]);
+}
+
+/// called at the start of every run: forget the closures of the previous run
+pub fn reset_persistent() {
+    PERSIST.with(|p| p.borrow_mut().clear());
+}
+
+fn makers(pnames: &[String]) -> Vec<Maker> {
+    let mut v: Vec<Maker> = vec![];
+    for k in [0usize, 1, 2, 3] {
+        v.push(Box::new(move || {
+            let mut f = prunes::events_limit(|e: &LogEntry| e.is_mc_message_received(), k);
+            Box::new(move |s: &McState| f(s).is_some())
+        }));
+        v.push(Box::new(move || {
+            let mut f = prunes::events_limit(|e: &LogEntry| e.is_mc_timer_fired() || e.is_mc_message_dropped(), k);
+            Box::new(move |s: &McState| f(s).is_some())
+        }));
+        let pn = pnames.to_vec();
+        v.push(Box::new(move || {
+            let mut f = prunes::events_limit_per_proc(
+                |e: &LogEntry, q: &String| matches!(e, LogEntry::McMessageReceived { src, dst, .. } if src == q || dst == q),
+                pn.clone(),
+                k,
+            );
+            Box::new(move |s: &McState| f(s).is_some())
+        }));
+        v.push(Box::new(move || {
+            let mut f = prunes::sent_messages_limit(k as u64);
+            Box::new(move |s: &McState| f(s).is_some())
+        }));
+        v.push(Box::new(move || {
+            let mut f = prunes::state_depth(k as u64 + 1);
+            Box::new(move |s: &McState| f(s).is_some())
+        }));
+        v.push(Box::new(move || {
+            let mut f = invariants::state_depth(k as u64 + 1);
+            Box::new(move |s: &McState| f(s).is_err())
+        }));
+        v.push(Box::new(move || {
+            let mut f = invariants::state_depth_current_run(k as u64 + 1);
+            Box::new(move |s: &McState| f(s).is_err())
+        }));
+        v.push(Box::new(move || {
+            let mut f = goals::event_happened_n_times_current_run(|e: &LogEntry| e.is_mc_message_received(), k);
+            Box::new(move |s: &McState| f(s).is_some())
+        }));
+        v.push(Box::new(move || {
+            let mut f = goals::depth_reached(k as u64 + 1);
+            Box::new(move |s: &McState| f(s).is_some())
+        }));
+        v.push(Box::new(move || {
+            let mut f = collects::state_depth(k as u64 + 1);
+            Box::new(move |s: &McState| f(s))
+        }));
+    }
+    v.push(Box::new(|| {
+        let mut f = goals::no_events();
+        Box::new(move |s: &McState| f(s).is_some())
+    }));
+    v
+}
+
+fn persistent_agree(s: &McState, pnames: &[String]) -> bool {
+    PERSIST.with(|p| {
+        let mut p = p.borrow_mut();
+        if p.is_empty() {
+            for m in makers(pnames) {
+                let kept = m();
+                p.push((m, kept));
+            }
+        }
+        let mut ok = true;
+        for (mk, kept) in p.iter_mut() {
+            let mut fresh = mk();
+            let a = catch_unwind(AssertUnwindSafe(|| kept(s))).ok();
+            let b = catch_unwind(AssertUnwindSafe(|| fresh(s))).ok();
+            ok &= a == b;
+        }
+        ok
+    })
+}
+
 pub fn battery(s: &McState) -> String {
     let d = s.depth;
     // the current run's part of the trace, by the documentation: from the latest McStarted entry on.  Computed here
@@ -169,6 +260,8 @@ pub fn battery(s: &McState) -> String {
     }
     items.push(format!("fm={}", fm.join(".")));
     items.push(format!("csd={}", tri(&mut |x| b(collects::state_depth(x)(s)), d)));
+    // the same built-in predicates kept across the states of this run vs built afresh for this state
+    items.push(format!("pst={}", b(persistent_agree(s, &pnames))));
     // short-circuit of all_invariants: the counting rules record how often they were invoked
     let c1 = Rc::new(RefCell::new(0u64));
     let c2 = Rc::new(RefCell::new(0u64));
